@@ -17,7 +17,7 @@ EXPLANATION = (
     "and not decided.")
 # every anchor of these rules lives in the h3 crate: thorough tier repeats them on the feature-less build
 EXTRA_CONFIGS = ["h3-plain"]
-RULES = "C02-a exact consumption; C02-b truncation malformed; C02-c unknown skipped; C02-d end of stream, who may read the transport's bare end-of-stream flag (A10); C02-e error tables; C02-f who writes segmentation state, push_bytes stores the whole transport buffer, every step of Cursor::advance moves the position by what it takes off the count; C02-b also: UnexpectedEnd -> Incomplete(bytes needed); C02-g completeness before decode, no verdict on the declared length alone; shared through a proxy: C16-a under C02-g, C03-trl/trl2 under C02-d, the Err rows of C03-srv/cli/body under C02-e"
+RULES = "C02-a exact consumption; C02-b truncation malformed; C02-c unknown skipped; C02-d end of stream, who may read the transport's bare end-of-stream flag (A10); C02-e error tables; C02-f who writes segmentation state, push_bytes stores the whole transport buffer, every step of Cursor::advance moves the position by what it takes off the count; C02-b also: UnexpectedEnd -> Incomplete(bytes needed); C02-g completeness before decode, no verdict on the declared length alone; shared through a proxy: C16-a under C02-g, C03-trl/trl2 under C02-d, the Err rows of C03-srv/cli/body and of C04-a under C02-e"
 
 FR = "h3::proto::frame::"
 FS = "h3::frame::FrameStream::"
@@ -396,3 +396,6 @@ def run(ctx):
         # a frame reader's error (truncated frame, malformed frame) reaches the error table from every place that reads frames
         # off a request stream: the Err rows of the C03 dispatch tables
         _c03.run(shared.Proxy(ctx, ("C03-srv", "C03-cli", "C03-body"), "C02-e", constructs=("Err ->", "Err and None rows")))
+        # .. and on the control stream: the frame reader's error rows of the control dispatch table (C04-a)
+        from rules import C04 as _c04
+        _c04.run(shared.Proxy(ctx, ("C04-a",), "C02-e", constructs=("Err:",)))
